@@ -134,6 +134,10 @@ theorem store_count (ms : List Mod) (env : BlockEnv) (m : Mod) :
     have := (List.mem_filter.mp hm).2
     simp [hf] at this
 
+/-- ... and registrations that are pairwise different (they carry different ids) are never handed out twice -/
+theorem store_no_duplicates (ms : List Mod) (env : BlockEnv) (h : ms.Nodup) : ((build ms).modificationsFor env).Nodup :=
+  (modificationsFor_build ms env).nodup_iff.mpr (List.Pairwise.filter _ h)
+
 /-- **nothing dropped, nothing doubled, each where its scope puts it, in listing order, disjoint** -/
 theorem resolve_offsets_answer {env : BlockEnv} {mods : List Mod} {r : List (Mod × Nat)}
     (h : resolveOffsets env mods = .ok r) :
